@@ -12,9 +12,12 @@ CONSTANTS
   MaxSrc = 3
   MaxLimit = 6
   MaxReq = 2
+  SigFeeSet = {2}
+  SigDenom = "u"
+  EncSet = {TRUE, FALSE}
 INIT Init
 NEXT Next
 VIEW View
 INVARIANTS NonNegative
-PROPERTIES Exact Conserved
+PROPERTIES Exact Conserved Signing
 CHECK_DEADLOCK FALSE
